@@ -159,6 +159,9 @@ class Translator:
         if op is sc.AT:
             if av in (sc.AT_BEGINNING, sc.AT_BEGINNING_STRING):
                 return None    # only meaningful at the start; callers anchor at the start anyway
+            if av in (sc.AT_END_STRING, sc.AT_END) and not is_last and self.drop:
+                self.dropped += 1      # an end anchor inside the pattern only restricts: dropping it over-approximates
+                return None
             if av is sc.AT_END_STRING:
                 if not is_last:
                     raise RegexUnsupported(r'\Z not at the end')
